@@ -168,13 +168,6 @@ func (f *FnEnc) applyContract(ct *Contract, name string, env map[string]string, 
 	f.callN[name]++
 	site := fmt.Sprintf("%s#%d", name, f.callN[name])
 	pre := f.st
-	preH := ""
-	getPreH := func() string {
-		if preH == "" {
-			preH = f.heapTerm(pre)
-		}
-		return preH
-	}
 	envPre := map[string]string{}
 	for k, v := range env {
 		envPre[k] = v
@@ -186,17 +179,13 @@ func (f *FnEnc) applyContract(ct *Contract, name string, env map[string]string, 
 		if len(tags) == 0 {
 			tags = ct.Tags
 		}
-		at := exprAtoms(r.Expr)
-		e2 := envPre
-		if at["H"] || at["H0"] {
-			e2 = map[string]string{}
-			for k, v := range envPre {
-				e2[k] = v
-			}
-			e2["H"] = getPreH()
-			e2["H0"] = getPreH()
+		e2 := map[string]string{}
+		for k, v := range envPre {
+			e2[k] = v
 		}
-		goal := f.e.strLitSubst(r.Expr.subst(e2).String())
+		e2["H"] = "@"
+		e2["H0"] = "@"
+		goal := f.evalWithStates(r.Expr, e2, map[string]*State{"H": pre, "H0": pre})
 		if f.wantTags(tags) {
 			f.oblige("pre", name+"."+r.Label, tags, goal, "")
 		} else {
@@ -273,10 +262,7 @@ func (f *FnEnc) applyContract(ct *Contract, name string, env map[string]string, 
 	if n := len(res); n > 0 && results != nil && isErrorType(results.At(n-1).Type()) {
 		envPost["err"] = res[n-1].T
 	}
-	postH := ""
 	for _, en := range ct.Ensures {
-		at := exprAtoms(en.Expr)
-		e2 := envPost
 		{
 			chk := map[string]string{"H": "", "H0": ""}
 			for k, v := range envPost {
@@ -288,22 +274,13 @@ func (f *FnEnc) applyContract(ct *Contract, name string, env map[string]string, 
 				continue
 			}
 		}
-		if at["H"] || at["H0"] {
-			e2 = map[string]string{}
-			for k, v := range envPost {
-				e2[k] = v
-			}
-			if at["H"] {
-				if postH == "" {
-					postH = f.heapTerm(post)
-				}
-				e2["H"] = postH
-			}
-			if at["H0"] {
-				e2["H0"] = getPreH()
-			}
+		e2 := map[string]string{}
+		for k, v := range envPost {
+			e2[k] = v
 		}
-		f.assume(f.e.strLitSubst(en.Expr.subst(e2).String()))
+		e2["H"] = "@"
+		e2["H0"] = "@"
+		f.assume(f.evalWithStates(en.Expr, e2, map[string]*State{"H": post, "H0": pre}))
 	}
 	return res
 }
@@ -446,6 +423,21 @@ func (f *FnEnc) builtinExternal(x ssa.Value, key string, args []Val, argVs []ssa
 	case "fmt.Printf", "fmt.Println", "fmt.Print":
 		f.trustedUsed[key] = true
 		f.tuples[x] = []Val{{"0", "Int"}, {"anil", "Any"}}
+		return true
+	case "binary.PutUvarint":
+		// A2: writes the uvarint encoding of x at the start of buf and returns its length; panics
+		// (index out of range) when buf is too short
+		f.trustedUsed[key] = true
+		buf, xv := args[0], args[1]
+		n := f.def("uvn", "Int", fmt.Sprintf("(blen (uv %s))", xv.T))
+		f.oblige("safe", "putuvarint", f.autoTags(), fmt.Sprintf("(<= %s (blen (bs.val %s)))", n, buf.T), "")
+		if len(argVs) > 0 {
+			if org, ok := f.byteOrigin[argVs[0]]; ok {
+				cur := f.load(org)
+				f.store(org, Val{fmt.Sprintf("(cat (uv %s) (drop %s %s))", xv.T, cur.T, n), "Bytes"})
+			}
+		}
+		f.vals[x] = Val{n, "Int"}
 		return true
 	case "fmt.Sprintf":
 		f.trustedUsed[key] = true
